@@ -52,12 +52,15 @@ def naive(ts):
 
 def case(ctx, i, rec):
     rng = ctx.rng(i)
-    kind = ["sim", "inferred", "missing", "inferred_missing", "handmade", "sim"][i % 6]
+    kind = ["sim", "inferred", "missing", "inferred_missing", "handmade", "sim", "mirrored"][i % 7]
     try:
         if kind == "sim":
             ts, r = zoo.sim(rng, n=int(rng.integers(3, 14)), L=1e4)
         elif kind == "inferred":
             ts, r = zoo.inferred(rng)
+        elif kind == "mirrored":
+            # identical (samples below, span) records under different numbers of samples in the tree
+            ts, r = zoo.mirrored_blocks(rng)
         elif kind == "missing":
             ts, r = zoo.sim(rng, n=int(rng.integers(4, 14)), L=1e4)
             ts, _ = zoo.with_missing(ts, rng, frac=0.4)
@@ -159,5 +162,5 @@ def case(ctx, i, rec):
 
 def reach(ctx, agg):
     need = {"inputs": 60, "inputs_with_2plus_distinct_T": 20, "cells_compared": 1000,
-            "inputs_with_polytomy_like_nodes": 10, "mixture_nodes_compared": 500}
+            "inputs_with_polytomy_like_nodes": 10, "mixture_nodes_compared": 500, "inputs:mirrored": 8}
     return [f"{k} = {agg.cnt.get(k, 0)} < {v}" for k, v in need.items() if agg.cnt.get(k, 0) < v]
